@@ -1,5 +1,6 @@
 import UmModel.Ttl
 import UmProofs.Decimal
+import UmProofs.TtlStore
 /-!
 # C19 — Migration preserves key expiry
 
@@ -103,5 +104,54 @@ choice of the code, stated so that it is visible. -/
 theorem C19_malformed (p : Bytes) (h : btoiI64 p = none) : pttlToRestore p = RESTORE_NO_EXPIRE := by
   unfold pttlToRestore pttlNeedNoExpire
   simp [h]
+
+/-! ## end to end: a key record with an absolute expiry, a clock, one transfer
+
+`KeyRec`, `live`, `redisPttl`, `redisDump`, `redisRestore` (`UmProofs/TtlStore.lean`) are the
+assumed behaviour of the two Redis servers; the clock may advance between the two pipelined
+commands (`t1 ≤ t2`: the key may expire in between) and before the RESTORE (`t2 ≤ t3`). `MoveOk`
+says, in absolute time: nothing arrives from nothing; a persistent key arrives persistent with
+its data; a key expiring at `e` either does not arrive (it expired on the way) or arrives with its
+data and an expiry `e'`, `t3 < e' ≤ e + (t3 - tRead)` — a positive ttl, never persistent, at most
+the remaining time read at `tRead`. The hypothesis is Redis' own range for a ttl (`i64`). -/
+
+/-- **C19, scan / UMSYNC push path, every key and every timing** (`PTTL` at `t1`, `DUMP` at `t2`,
+`RESTORE` at `t3`), plus: a key still there when `DUMP` runs does arrive, with its data. -/
+theorem C19_scan_move (k : Option KeyRec) (t1 t2 t3 : Nat) (h12 : t1 ≤ t2) (h23 : t2 ≤ t3)
+    (hr : ∀ r e, live k t1 = some r → r.exp = some e → e - t1 ≤ i64Max) :
+    MoveOk k (scanMove k t1 t2 t3) t1 t3 ∧
+    (∀ r, live k t2 = some r → ∃ x, scanMove k t1 t2 t3 = some x ∧ x.data = r.data) :=
+  scanMove_spec k t1 t2 t3 h12 h23 hr
+
+/-- **C19, pull path, every key and every timing** (`DUMP` at `t1`, `PTTL` at `t2`, `RESTORE` at
+`t3`); a key that expires between `DUMP` and `PTTL` is not restored (the seeded change C19-1
+restored it as persistent). -/
+theorem C19_pull_move (k : Option KeyRec) (t1 t2 t3 : Nat) (h12 : t1 ≤ t2) (h23 : t2 ≤ t3)
+    (hr : ∀ r e, live k t2 = some r → r.exp = some e → e - t2 ≤ i64Max) :
+    MoveOk k (pullMove k t1 t2 t3) t2 t3 ∧
+    (∀ r, live k t2 = some r → ∃ x, pullMove k t1 t2 t3 = some x ∧ x.data = r.data) :=
+  pullMove_spec k t1 t2 t3 h12 h23 hr
+
+/-- non-vacuity: a key expiring at 5000, read at 1000/1002, restored at 1010 arrives expiring at
+5010 (scan) / 5008 (pull); read after its expiry it does not arrive; a persistent key arrives
+persistent -/
+example : ∃ x, scanMove (some ⟨[1, 2], some 5000⟩) 1000 1002 1010 = some x ∧ x.data = [1, 2] ∧
+    ∃ e', x.exp = some e' ∧ 1010 < e' ∧ e' ≤ 5010 := by
+  have hr : ∀ r e, live (some ⟨[1, 2], some 5000⟩) 1000 = some r → r.exp = some e → e - 1000 ≤ i64Max := by
+    intro r e h he
+    simp [live] at h; subst h; simp at he; subst he; decide
+  have hl : live (some ⟨[1, 2], some 5000⟩) 1000 = some ⟨[1, 2], some 5000⟩ := by simp [live]
+  have h := (C19_scan_move (some ⟨[1, 2], some 5000⟩) 1000 1002 1010 (by omega) (by omega) hr).1
+  have harr := (C19_scan_move (some ⟨[1, 2], some 5000⟩) 1000 1002 1010 (by omega) (by omega) hr).2
+    ⟨[1, 2], some 5000⟩ (by simp [live])
+  obtain ⟨x, hx, hd⟩ := harr
+  unfold MoveOk at h
+  rw [hl] at h
+  simp only at h
+  rcases h with h | ⟨e', he', h1, h2⟩
+  · rw [hx] at h; cases h
+  · refine ⟨_, he', rfl, e', rfl, h1, by omega⟩
+example : pullMove (some ⟨[1, 2], some 1001⟩) 1000 1002 1010 = none := by
+  simp [pullMove, redisPttl, redisDump, live, pullTransfer, applyTransfer, intDigits_neg_two, PTTL_KEY_NOT_FOUND_eq]
 
 end Um.Ttl.C19
